@@ -165,7 +165,7 @@ def hostile_kind(h):
 
 def nontrivial(prog):
     ls = set(prog["labels"])
-    return ("binary_operation" in ls or "concatenation" in ls) or ("alias" in ls and "field_write" in ls)
+    return ("binary_operation" in ls or "concatenation" in ls) or ("alias" in ls and "field_write" in ls) or "generated_callee" in ls
 
 
 def shard(arg):
@@ -178,10 +178,16 @@ def shard(arg):
     if c06_open:
         col.stepovers["C06-loop-visit-limit: variables of the enclosing code are not re-assigned inside loop bodies"] += 1
 
+    # C08's own open finding: the summary of a callee is computed for the first visit of a call statement and applied
+    # again on later visits (code in or after a loop is visited up to three times)
+    revisit_open = any(e.get("id") == "C08-callee-summary-reapplied-on-revisit" and e.get("status") == "open" for e in common.load_known(ID))
+    if revisit_open:
+        col.stepovers["C08-callee-summary-reapplied-on-revisit: generated callees (conditional field writes, early returns) are not called in or after a loop"] += 1
+
     @hypothesis.seed(seed)
     @settings(max_examples=n_examples, deadline=None, database=None, derandomize=False, report_multiple_bugs=False,
               suppress_health_check=list(HealthCheck), phases=[hypothesis.Phase.generate])
-    @hypothesis.given(gen_val.programs(loops=True, lists=True, loop_overwrite=not c06_open), st.integers(0, 50), st.sampled_from(gen_val.HOSTILE))
+    @hypothesis.given(gen_val.programs(loops=True, lists=True, loop_overwrite=not c06_open, callee_revisit=not revisit_open), st.integers(0, 50), st.sampled_from(gen_val.HOSTILE))
     def prop(prog, idx, hostile):
         ds, info = cover_oracle(prog)
         col.evaluations += 1
